@@ -166,9 +166,10 @@ class Run:
         spawn_probe: bool = False,
         cancels: int = 0,
         batch: int = 1,
+        fine: bool = False,
     ) -> None:
         self.program = program
-        self.w = World(ch, cancel_budget=cancels, batch=batch)
+        self.w = World(ch, cancel_budget=cancels, batch=batch, fine=fine)
         self.probes = probes
         self.spawn_probe = spawn_probe
         self.events: list = []
@@ -205,7 +206,12 @@ class Run:
                 [s["name"] for s in getattr(self, "all_spawned", []) if s["task"] is not None and not s["task"].done()]
             )
             self.cancel_phases.append(tuple(self.phase))
-            self.cancel_in_cleanup.append(any(d.in_exit for ds in self.disp.values() for d in ds))
+            # the cleanup of a block is in progress from the first exit call of one of its
+            # disposables until the block has handed its outcome back (also between the end of the
+            # last exit and the moment the gathered results reach the exiting / rolling-back code)
+            self.cancel_in_cleanup.append(
+                any((d.in_exit or d.exited > 0) and bid not in self.caught for bid, ds in self.disp.items() for d in ds)
+            )
 
         self.w.on_cancel = on_cancel
         _capture.records.clear()
